@@ -122,7 +122,9 @@ pub fn build_from_tlc(chunks: &[Value], rot: usize) -> Option<Vec<u8>> {
 fn wrap_xz(l2: &[u8], content: &[u8], check: u8) -> Vec<u8> {
     let f = XzFile {
         check,
-        blocks: vec![XzBlock { payload: l2.to_vec(), content: content.to_vec(), ..Default::default() }],
+        // dictionary property 40 (4 GiB - 1): inside a container the LZMA2 dictionary size is part of well-formedness,
+        // and the streams wrapped here may reach further back than the default 8 MiB
+        blocks: vec![XzBlock { payload: l2.to_vec(), content: content.to_vec(), filter_props: Some(vec![40]), ..Default::default() }],
         ..Default::default()
     };
     f.serialize().bytes
@@ -165,12 +167,8 @@ pub fn check_case(c: &L2Case, prop: &str, rep: &mut Report) -> bool {
                 return false;
             }
             if let Some(msg) = again {
-                if msg.starts_with("panic") {
-                    let mut cj = serde_json::to_value(c).unwrap();
-                    cj["kind"] = json!("lzma2");
-                    rep.violation(prop, msg, cj);
-                    return false;
-                }
+                // (also a panic: no listed property speaks about decompress() on a used object that was not reset,
+                // and the reset case is C14's)
                 rep.drift(format!("(reuse of an Lzma2Decoder, seen while checking {}) {}", prop, msg), json!({"origin": c.origin}));
             }
             first
@@ -195,7 +193,17 @@ pub fn check_case(c: &L2Case, prop: &str, rep: &mut Report) -> bool {
     let mut other: Vec<String> = vec![];
     let owns = |ps: &[&str]| ps.contains(&prop);
     match o.verdict {
-        Verdict::Panic => vs.push(format!("panic: {}", o.msg)),
+        Verdict::Panic => {
+            // a panic is neither success nor an error value: it breaks the property that promises one of them for
+            // this input (acceptance of a well-formed stream: C02; rejection with an error: C17, or C09 for a bad copy)
+            let d = format!("panic: {}", o.msg);
+            let mine = match e.v {
+                Exp::Ok => owns(&["C02"]),
+                Exp::Err => if e.class == "dist" { owns(&["C09"]) } else { owns(&["C17"]) },
+                Exp::Any => false,
+            };
+            if mine { vs.push(d) } else { other.push(d) }
+        }
         Verdict::Ok => match e.v {
             Exp::Ok | Exp::Any => {
                 if o.out != e.out {
@@ -231,7 +239,8 @@ pub fn check_case(c: &L2Case, prop: &str, rep: &mut Report) -> bool {
     for d in other {
         rep.drift(format!("(clause of another property, seen while checking {}) {}", prop, d), json!({"origin": c.origin, "class": e.class}));
     }
-    // sinks that accept only part of each write must still receive exactly the output
+    // sinks that accept only part of each write must still receive exactly the output ("delivers exactly the bytes the
+    // format defines" holds for whatever io::Write the caller has; C12 states the same from the sink's side)
     if vs.is_empty() && e.v == Exp::Ok && c.api == "lzma2" && data.len() % 3 == 0 && owns(&["C02", "C12"]) {
         let mut sink = crate::io::FaultSink { short: [1usize, 5, 4096][data.len() / 3 % 3], ..Default::default() };
         let mut rd = &data[..];
